@@ -1,7 +1,7 @@
 // goitmon: entry point of the runtime monitors.
 //
 //	goitmon run -prop C03 -tier quick -seed 1 -goit <bin> [-goitvfs <bin>] [-goitin <bin>] -scratch <dir> -verif /verif
-//	goitmon replay -file <witness> -goit <bin> ... 
+//	goitmon replay -file <witness> -goit <bin> ...
 package main
 
 import (
@@ -45,9 +45,9 @@ func usage() {
 }
 
 type common struct {
-	prop, tier, goit, goitvfs, goitin, scratch, verif, file, out string
-	seed                                                   int64
-	workers                                                int
+	prop, tier, goit, goitvfs, goitin, goitrace, scratch, verif, file, out string
+	seed                                                                   int64
+	workers                                                                int
 }
 
 func parse(args []string) *common {
@@ -59,6 +59,7 @@ func parse(args []string) *common {
 	fs.StringVar(&c.goit, "goit", "", "goit binary built from the current tree")
 	fs.StringVar(&c.goitvfs, "goitvfs", "", "goit binary built from the vfs-rewritten copy")
 	fs.StringVar(&c.goitin, "goitin", "", "in-process monitor binary")
+	fs.StringVar(&c.goitrace, "goitrace", "", "goit binary built with -race (tripwire, C18 thorough)")
 	fs.StringVar(&c.scratch, "scratch", "", "scratch directory (tmpfs)")
 	fs.StringVar(&c.verif, "verif", "/verif", "verif directory")
 	fs.StringVar(&c.file, "file", "", "witness file (replay)")
@@ -87,6 +88,7 @@ func mkctx(a *common, prop string) (*core.Ctx, *mon.Prop, int) {
 	c.Rule = p.Rule
 	c.Assume = append(append([]string{}, p.Assume...), mon.CommonAssume()...)
 	c.Goit, c.GoitVFS, c.GoitIn = a.goit, a.goitvfs, a.goitin
+	c.GoitRace = a.goitrace
 	c.Scratch = a.scratch
 	c.VerifDir = a.verif
 	if a.out != "" {
